@@ -266,7 +266,7 @@ func (d *drv17) servedIDs() []uint64 {
 func (d *drv17) observe(expGor int) []uint64 {
 	expCnt := len(d.reg)
 	var cnt, act, gor int
-	limit := 2 * time.Second
+	limit := 10 * time.Second // generous: a loaded machine (-race build, other checks running) must not look like a divergence
 	if d.diverged {
 		limit = 20 * time.Millisecond // the server has already left the expected path once: do not wait again
 	}
